@@ -506,3 +506,64 @@ func accumulated(v ssa.Value) bool {
 	}
 	return rec(v, 0)
 }
+
+// blockKindsAgree (BLOCK-KINDS): a function that distinguishes statement kinds
+// and has a case for two or more of the kinds that contain nested statements
+// (if/else, loops, for-each, groups, one-of) is looking inside blocks; a block
+// kind it has no case for is a block it does not look into. Each function of the
+// scope is judged on its own (with its closures): a partial cover is reported,
+// a function that mentions none or one block kind is not a block walker.
+func blockKindsAgree(c *Check, rule string, fns map[*ssa.Function]bool) int {
+	p := c.P
+	kinds := oneofKinds(p, "isStatement_Stmt")
+	var blocks []kindInfo
+	for _, k := range kinds {
+		if k.ChildBearing && k.Producible {
+			blocks = append(blocks, k)
+		}
+	}
+	if len(blocks) < 4 {
+		return 0
+	}
+	var list []*ssa.Function
+	for f := range fns {
+		if f.Parent() == nil && !p.isGeneratedFile(p.fnFile(f)) {
+			list = append(list, f)
+		}
+	}
+	sort.Slice(list, func(i, j int) bool { return fnName(list[i]) < fnName(list[j]) })
+	// direct static callers: a selector helper may leave one block kind to the
+	// function that calls it (the one-of block has choices, not one body)
+	callers := map[*ssa.Function][]*ssa.Function{}
+	for _, g := range p.RepoFuncs() {
+		eachCall(g, func(cl ssa.CallInstruction) {
+			if h := cl.Common().StaticCallee(); h != nil && h != g {
+				root := g
+				for root.Parent() != nil {
+					root = root.Parent()
+				}
+				callers[h] = append(callers[h], root)
+			}
+		})
+	}
+	n := 0
+	for _, f := range list {
+		cov := kindsCovered(withClosures(f), blocks)
+		if len(cov) < 2 {
+			continue
+		}
+		n++
+		unit := withClosures(f)
+		for _, g := range callers[f] {
+			unit = append(unit, withClosures(g)...)
+		}
+		covUnit := kindsCovered(unit, blocks)
+		for _, k := range blocks {
+			_, ok := covUnit[k.Name]
+			c.Cond(ok, rule, fmt.Sprintf("%s|looks into %s", fnName(f), k.Name), p.pos(f.Pos()),
+				"the function has a case for this block kind like for the other block kinds",
+				fmt.Sprintf("the function has cases for %d of the %d statement kinds that contain nested statements but neither it nor a function that calls it has one for %s: what is nested in such a block is treated as absent", len(cov), len(blocks), k.Name))
+		}
+	}
+	return n
+}
